@@ -39,6 +39,7 @@ type History struct {
 	Unit   int    `json:"unit"`
 	Seed   int64  `json:"seed"`
 	Steps  []Step `json:"steps"`
+	Out    bool   `json:"out"` // the seeds are reached by outgoing connections (two listening seeds, MaxPeerDial = 1)
 }
 
 var (
@@ -100,6 +101,8 @@ type runner struct {
 	id      string
 	gates   map[string]*gate
 	holdStp atomic.Bool
+	lateStp atomic.Bool
+	outAddr []string
 	seedOn  atomic.Bool
 	tokens  chan struct{}
 	free    atomic.Bool
@@ -253,6 +256,16 @@ func (r *runner) seederLoop() {
 			continue
 		}
 		sn := hub.Get(r.id)
+		if r.h.Out {
+			// outgoing mode: hand both listening seeds to rain whenever it runs without a peer
+			if sn != nil && (sn.Status == "Downloading") && sn.Peers == 0 && sn.OutHS == 0 && sn.AddrListLen == 0 {
+				for _, a := range r.outAddr {
+					r.tr.AddPeer(a)
+				}
+				time.Sleep(60 * time.Millisecond)
+			}
+			continue
+		}
 		if cur == nil && sn != nil && sn.Acceptor && (sn.Status == "Downloading" || sn.Status == "Seeding") && sn.Peers == 0 && sn.InHS == 0 {
 			n++
 			pol := &vh.SeederPolicy{Gate: r.tokens}
@@ -337,6 +350,9 @@ func run(h History, dir string) {
 		if q.Event == "stopped" && r.holdStp.Load() {
 			rep.Delay = 300 * time.Millisecond
 		}
+		if q.Event == "stopped" && r.lateStp.Load() { // answers only after TrackerStopTimeout has expired
+			rep.Delay = 1200 * time.Millisecond
+		}
 		return rep
 	})
 	if err != nil {
@@ -355,6 +371,16 @@ func run(h History, dir string) {
 	r.prov.Quiet = true
 	cfg.CustomStorage = r.prov
 	cfg.TrackerStopTimeout = 500 * time.Millisecond
+	if h.Out {
+		cfg.MaxPeerDial = 1
+		for i, ip := range []string{"127.0.0.9", "127.0.0.10"} {
+			l, err := vh.ListenSeeder(T, "oseed"+strconv.Itoa(i), ip, tor, &vh.SeederPolicy{Gate: r.tokens}, nil)
+			if err == nil {
+				r.outAddr = append(r.outAddr, l.Addr.String())
+				defer l.Close()
+			}
+		}
+	}
 	r.prov.SetHook(func(phase, op, tid, name string, off int64, n int) error {
 		if phase != "enter" {
 			return nil
@@ -438,12 +464,16 @@ func run(h History, dir string) {
 		case "gate":
 			if st.Kind == "stopping" {
 				r.holdStp.Store(true)
+			} else if st.Kind == "stoptimeout" {
+				r.lateStp.Store(true)
 			} else if g := r.gates[st.Kind]; g != nil {
 				g.arm()
 			}
 		case "release":
 			if st.Kind == "stopping" {
 				r.holdStp.Store(false)
+			} else if st.Kind == "stoptimeout" {
+				r.lateStp.Store(false)
 			} else if g := r.gates[st.Kind]; g != nil {
 				g.release()
 			}
@@ -474,6 +504,7 @@ func run(h History, dir string) {
 			g.release()
 		}
 		r.holdStp.Store(false)
+		r.lateStp.Store(false)
 		r.wait("settled", 4000)
 		T.Emit(vh.Ev{"ev": "final", "phase": "begin", "class": r.classes()})
 		// the user's last command decides: after a start the torrent must already be on its way,
